@@ -61,6 +61,16 @@ CHECKS.update({
          'All 572 methods reachable through the VM dispatcher (reflection over the real registry, incl. methods promoted from embedded stubs/managers) x callers {outsider, admin of another appchain, (node account), governance admin for internal entry points} x 6 (thorough 16) argument vectors built from ids existing in the pre-state x 2 (thorough 4) pre-states; internal entry points must FAIL, and no call outside the reviewed public list may change state beyond caller nonce/fee or produce delivery entries.',
          'classification tables c17Internal / c17Public are part of the trusted base (harness/checks/c17.go)', '5 C17'),
 })
+CHECKS.update({
+ 'C03': ('probemc', 'model_checking',
+         'exhaustive product origin x rule x proof variant x block position x proof-checking mode on the real executor, decided differentially; exhaustive short sequences of direct entry-point calls',
+         '36 (origin, rule, proof) variants — accept-all rule, erroring rule, deployed WASM rule answering plain true/false, receipts against the destination rule, unregistered / logged-out origin, remote BitXHub with 0..4 distinct registered signers, duplicates, unregistered signers, signatures over another status / IBTP, garbage proof — x {alone, first, last} x {serial, parallel}: an IBTP failing the predicate must get a FAILED receipt and change nothing but nonce/fee, one satisfying it must be accepted; all sequences of <=2 direct calls of the interchain entry points by an outsider (audit off/on) must not process an IBTP. Worker subprocesses detect node crashes.',
+         'WASM rule assembled from WAT at run time; SimFabric rule stands for an erroring rule; rule update mid-history not yet in the product', '5 C03'),
+ 'C08': ('probemc', 'model_checking',
+         'bounded-exhaustive input enumeration (payload truncations, field-replacement menus, argument vectors for every reflected method) executed on the real executor in crash-attributing worker subprocesses',
+         'Every payload truncation and 13+ field replacements of one well-formed transaction of 6 kinds, 24 (type, vm) pairs each, 60 IBTP field mutations, and for all 572 dispatchable methods argument vectors of length 0, n-1, n, n+1 from 4 domains (quick: one third of these), each first/last in a block beside two valid transactions and followed by two blocks; oracle: process survives, one receipt per transaction in order with its hash, valid neighbours succeed, height +1, following blocks execute.',
+         'finite mutation menu (listed in the evidence rule); EVM transactions not mutated', '5 C08'),
+})
 REASON_WIP = 'check not built yet (work in progress; see DESIGN.md section 10)'
 def main():
     checks = []
@@ -94,7 +104,7 @@ def main():
             {'name': 'chainmc', 'path': 'harness/checks/c09.go', 'serves_properties': ['C09', 'C14'], 'kind_free_text': 'explicit-state BFS over chain histories'},
             {'name': 'crashmc', 'path': 'harness/checks/c11.go', 'serves_properties': ['C11'], 'kind_free_text': 'crash-state enumeration from recorded writes'},
             {'name': 'poolmc', 'path': 'harness/checks/pool.go', 'serves_properties': ['C18', 'C19'], 'kind_free_text': 'explicit-state BFS over the real mempool'},
-            {'name': 'probemc', 'path': 'harness/checks/probe.go', 'serves_properties': ['C07', 'C17'], 'kind_free_text': 'exhaustive probe product with differential oracle, sharded over worker subprocesses'},
+            {'name': 'probemc', 'path': 'harness/checks/probe.go', 'serves_properties': ['C03', 'C07', 'C08', 'C17'], 'kind_free_text': 'exhaustive probe product with differential oracle, sharded over worker subprocesses'},
             {'name': 'enum', 'path': 'harness/checks/c10.go', 'serves_properties': ['C10'], 'kind_free_text': 'bounded-exhaustive enumeration'},
         ],
         'checks': checks,
